@@ -58,6 +58,53 @@ def drive(case):
     return rec
 
 
+def shell_phase(c, tier):
+    """the single-letter check through the shell itself: several text parts (multi-language), all output modes;
+    the message has to land on the isolated letter in the LaTeX file (ShellObs.tla with flag = a)"""
+    import re
+    from checks import shell14
+    q = tier == 'quick'
+    syms = ['a', 'sp', 'nl', '.', 'flD', 'cb', 'selD', 'fn', ',', 'lb']
+    cfg = tlc.cfg_text(constants={'Sym': set(syms), 'MaxSym': 5 if q else 6, 'MaxDepth': 2, 'Free': False, 'Mode': 'normal'}, invariants=['SrcIsConc', 'Dump'])
+    r = c.tlc('generator (isolated letters, several parts) E(%d)' % (5 if q else 6), 'Gen', cfg)
+    docs = []
+    for b in r.json('@@'):
+        # keep documents in which every letter a is isolated: between two a there is a blank, line break or punctuation mark
+        last = None
+        ok_ = 'a' in b['doc']
+        for s_ in b['doc']:
+            if s_ == 'a':
+                if last == 'a':
+                    ok_ = False
+                last = 'a'
+            elif s_ in ('sp', 'nl', '.', ','):
+                last = None
+        d_ = b['doc']
+        # an insertion may become a placeholder glued to a neighbouring letter
+        if any((d_[k] == 'a' and d_[k + 1] == 'flD') or (d_[k] == 'cb' and d_[k + 1] == 'a') for k in range(len(d_) - 1)):
+            ok_ = False
+        if ok_:
+            docs.append(b)
+    c.rng.shuffle(docs)
+    docs = docs[:400 if q else 5000]
+    cases = []
+    for i, b in enumerate(docs):
+        cases.append(dict(id='sh%d' % i, doc=b['doc'], src=b['src'], mode=shell14.MODES[i % 5], ml=True, mainlang='en-GB',
+                          single='z.B.||', ltflag='Q', flag='a'))
+    recs = c.drive(cases, shell14.drive_e2e, chunksize=4)
+    ok = [x for x in recs if x['outcome'] == 'returned']
+    for x in recs:
+        if x['outcome'] != 'returned':
+            c.violation(x, 'shell:no-report:' + x['outcome'])
+    verdicts = c.validate('ShellObs: single-letter messages of the shell land on the letters in the LaTeX file', 'ShellObs', ok, project=shell14.project)
+    for x in ok:
+        v = verdicts[x['id']]['c14']
+        c.nontrivial.add(hash((''.join(x['src']), x['mode'])))
+        if v != 'ok':
+            c.violation(x, 'shell:' + v, extra={'text': chars.dec(x['src'])})
+    c.extra['shell_level_cases'] = len(ok)
+
+
 def run(prop, tier, seed, replay=None):
     c = core.Check(prop, tier, seed)
     q = tier == 'quick'
@@ -110,7 +157,9 @@ def run(prop, tier, seed, replay=None):
                 c.known_seen.append(hit)
             else:
                 c.violation(r, v, extra={'text': chars.dec(r['txt'])})
-    c.nontrivial = set(hash(x) for x in c.nontrivial)
+    if not replay:
+        shell_phase(c, tier)
+    c.nontrivial = set(hash(x) for x in c.nontrivial if not isinstance(x, int)) | set(x for x in c.nontrivial if isinstance(x, int))
     for r in [x for x in ok if x['single'] or x['equ']][:5]:
         c.sample({'text': chars.dec(r['txt']), 'accept': r['accept_raw'], 'mode': r['mode'],
                   'single': [(m['offset'], m['length']) for m in r['single']], 'equ': [(m['offset'], m['length']) for m in r['equ']],
